@@ -215,6 +215,10 @@ form('proto-call-missing-method', { ops: ['concat'], nodemand: true, kf: 'D35' }
 form('proto-apply-spread-everything', { ops: ['concat'], nodemand: true, kf: 'D38' }, F => `String.prototype.concat.apply(...[${F.loc()}, [${F.s()}, ${F.f()}]])`)
 form('proto-apply-ignored-third-argument', { ops: ['concat'], nodemand: true, kf: 'D38' }, F => `String.prototype.concat.apply(${F.loc()}, [${F.s()}], ${F.f()})`)
 form('proto-apply-arraylit', { ops: ['concat'] }, F => `String.prototype.concat.apply(${F.loc()}, [${F.s()}, ${F.lit()}, ${F.f()}])`)
+// literal this argument: the statement is silent about it (policy: left to the implementation; the code instruments apply('x', ['b', a]) but not apply('x', [a, 'b'])), the forms feed C01/C02/C03
+form('proto-apply-literal-this-first-elem-nonliteral', { ops: ['concat'], nodemand: true }, F => `String.prototype.concat.apply('t${F.id()}', [${F.s()}, 'u${F.id()}'])`)
+form('proto-apply-literal-this-only-elem-nonliteral', { ops: ['concat'], nodemand: true }, F => `String.prototype.concat.apply('t${F.id()}', [${F.f()}])`)
+form('proto-call-literal-this-first-arg-nonliteral', { ops: ['concat'], nodemand: true }, F => `String.prototype.concat.call('t${F.id()}', ${F.s()}, 'u${F.id()}')`)
 form('proto-apply-no-list', { ops: ['trim'] }, F => `String.prototype.trim.apply(${F.loc()})`)
 form('proto-apply-no-list-effect-this', { ops: ['toUpperCase'] }, F => `String.prototype.toUpperCase.apply(${F.f()})`)
 form('proto-apply-empty', { ops: ['trim'] }, F => `String.prototype.trim.apply(${F.loc()}, [])`)
@@ -268,6 +272,8 @@ form('opt-null-outer-skips-inner', { ops: ['concat', 'trim'] }, F => `w.n${F.id(
 form('opt-call-on-opt-member', { ops: ['trim'] }, F => `w.o${F.id()}?.f1?.(${F.s()}).trim()`)
 form('opt-call-on-opt-member-local', { ops: ['trim'] }, F => `${F.loc(F.o())}?.f2?.(${F.f()}, ${F.s()}).trim()`)
 form('opt-call-on-opt-computed-member', { ops: ['concat'] }, F => `w.o${F.id()}?.[w.k${F.id()}]?.(${F.s()}).concat(${F.s()})`)
+// a parenthesised optional chain used as callee keeps its object as this ((a?.b.c)() calls c on a?.b); lowered, the callee is a value (D46)
+form('opt-paren-chain-as-callee', { ops: ['trim'], kf: 'D46', nodemand: true }, F => `(w.o${F.id()}?.s2.trim().toString)()`)
 form('opt-call-on-member-after-opt', { ops: ['trim'], kf: 'D32' }, F => `w.o${F.id()}?.o2.f1?.(${F.s()}).trim()`)
 form('opt-call-on-opt-member-null-fn', { ops: ['trim'] }, F => `w.o${F.id()}?.n1?.(${F.f()}).trim()`)
 form('opt-call-on-opt-member-null-base', { ops: ['trim'] }, F => `w.n${F.id()}?.f1?.(${F.f()}).trim()`)
